@@ -19,7 +19,13 @@ REQUIRED = ["KV.C20.read_eq", "KV.C20.write_read", "KV.C20.write_frame", "KV.C20
             "KV.C20.required_bits_fits", "KV.C20.required_bits_minimal",
             "KV.C20.pivot32_acceptable", "KV.C20.pivot64_acceptable", "KV.C20.bounded_find_correct",
             "KV.C20.bounded_find_probes_in_range", "KV.C20.bounded_find_terminates",
-            "KV.C20.sorted_uniform_correct", "KV.C20.binary_find_correct"]
+            "KV.C20.sorted_uniform_correct", "KV.C20.binary_find_correct",
+            # probing hash table
+            "KV.C20.find_correct", "KV.C20.insert_spec", "KV.C20.full_throws", "KV.C20.findOrInsert_spec",
+            "KV.C20.scan_diverges_iff", "KV.C20.run_refines_map", "KV.C20.run_refines_map_from_empty",
+            "KV.C20.double_preserves", "KV.C20.auto_refines_map", "KV.C20.auto_refines_map_real",
+            "KV.C20.theta_real_ok", "KV.C20.power2_next_eq", "KV.C20.power2_ideal_eq", "KV.C20.power2_ctor_iff",
+            "KV.C20.power2_ops_eq", "KV.C20.roundBuckets", "KV.C20.double_without_rollover_loses"]
 
 
 # ---------------------------------------------------------------- generators: bit fields
